@@ -34,12 +34,14 @@ C07Fails(e) ==
   IF ~Conforming(e.kind, e.wire) THEN {}
   ELSE (IF e.dec # "ok" THEN {"conforming-message-rejected"} ELSE {})
        \cup (IF e.dec = "ok" /\ AllValid(e) /\ e.ver # "ok" THEN {"conforming-independently-signed-message-does-not-verify"} ELSE {})
+       \cup (IF e.henv /\ ~e.mut /\ e.ext = <<>> /\ AllValid(e) /\ e.henvres # "ok" THEN {"conforming-hash-envelope-does-not-verify"} ELSE {})
 
 C02Fails(e) ==
   IF e.dec # "ok" THEN {}
   ELSE (IF Len(e.spy) > NSigs(e.kind, e.wire) THEN {"more-verifier-calls-than-signatures"} ELSE {})
        \cup (IF \E j \in 1..Len(e.spy) : j <= NSlots(e) /\ e.spy[j].content # ExpTbs(e, j) THEN {"verifier-input-is-not-the-sig-structure"} ELSE {})
        \cup (IF \E j \in 1..Len(e.spy) : j <= NSlots(e) /\ e.spy[j].sig # SigBytesOf(e.kind, e.wire, j) THEN {"verifier-got-other-signature-bytes"} ELSE {})
+       \cup (IF \E j \in 1..Len(e.henvspy) : e.henvspy[j].content # TbsOf(e.kind, e.wire, 1, <<>>, e.payload, BodyProtItem(e)) THEN {"hash-envelope-verifier-input-is-not-the-sig-structure"} ELSE {})
 
 C03Fails(e) ==
   IF e.dec # "ok" THEN {}
@@ -51,7 +53,7 @@ BodyBytes(kind, b) == IF kind = "sign1" THEN Tail(b) ELSE IF kind = "sign" THEN 
 C09Fails(e) ==
   IF e.dec # "ok" THEN {}
   ELSE (IF e.reenc # "ok" THEN {"decoded-message-cannot-be-reencoded"}
-        ELSE (IF e.re # ReencodePrediction(e.kind, e.wire) THEN {"reencoding-changes-more-than-length-prefix-widths"} ELSE {})
+        ELSE (IF ~SameUpToAllowedWidths(e.kind, e.re, e.wire) THEN {"reencoding-changes-more-than-length-prefix-widths"} ELSE {})
              \cup (IF IsDetBytes(BodyBytes(e.kind, e.wire)) /\ e.re # e.wire THEN {"deterministic-input-not-reproduced"} ELSE {})
              \cup (IF e.ver = "ok" /\ e.rever # "ok" THEN {"signature-no-longer-verifies-after-reencoding"} ELSE {})
              \cup (IF e.re2 # e.re THEN {"second-cycle-differs"} ELSE {}))
